@@ -402,7 +402,7 @@ func verifRunCase(c verifCase) (res verifResult) {
 	l.released = true
 	l.cond.Broadcast()
 	l.mu.Unlock()
-	if !verifWait(500*time.Millisecond, checkDone) {
+	if !verifWait(3*time.Second, checkDone) {
 		res.Ret = "hang"
 	} else {
 		res.Ret = verifRetClass(retErr)
